@@ -315,7 +315,7 @@ func main() {
 	r.Assume = []string{
 		"granularity: mutating file-system operations of plz itself (os.* / xattr.* in src/fs, cache, build, core, test); instruction-level races inside one operation or inside the kernel are out of reach",
 		"schedules: process A preempted once, before each of its operations in turn; B runs in the gap until it exits or sleeps in flock() (detected from /proc/<pid>/task/*/stack); with two invocations of the same command the two role assignments are symmetric",
-		"three-step schedules (scenarios in which A and B build different targets that share output files): A is preempted twice (before operation i and before a later operation j on the shared output paths), B once (before each of its operations, right after each of its link/rename operations, or not at all) in between: A..i | B..b | A i..j | B b..end | A j..end; quick: i = each removal of a shared file, j = the operation that re-creates it; thorough: every pair i<j",
+		"three-step schedules (scenarios in which A and B build different targets that share output files): A is preempted twice (before operation i and before a later operation j on the shared output paths), B once (before each of its operations - quick: its operations on the shared output files -, right after each of its link/rename operations, or not at all) in between: A..i | B..b | A i..j | B b..end | A j..end; quick: i = each removal of a shared file, j = the operation that re-creates it; thorough: every pair i<j",
 		"each invocation uses -n 2, so operation order inside one process varies between runs: pause points are named by operation identity (i-th occurrence of `op path` of a lone dry run), not by number; a pause point that an invocation does not reach lets it run to its end (B then runs after A)",
 	}
 	r.Finish(lib.Coverage{
@@ -391,7 +391,9 @@ func threeStep(r *lib.Run, e *hist.Engine, fam hist.Family, preHist []string, pr
 		k := strings.ReplaceAll(f[1], dry, "@")
 		count[k]++
 		key := fmt.Sprintf("%d:%s", count[k], k)
-		keysB = append(keysB, key) // every operation of B: what B does after it touched a shared file matters
+		if !r.Quick() || sharedOp(key) {
+			keysB = append(keysB, key) // thorough: every operation of B; quick: its operations on the shared files
+		}
 		if op := opOf(key); op == "link" || op == "rename" {
 			keysB = append(keysB, "after:"+key) // right after the file was put in place, before B reads it
 		}
